@@ -411,6 +411,17 @@ def gen_class_case(rng, cls, mal=False):
         it, il, istr = gen_io_items(rng, uris, table, key, False, mal)
         text.update(sources=st, outputs=it); form(sources=sl, outputs=il)
         if istr is not None: form(sources=sl, outputs=istr)
+        if istr is not None and cls == 'VideoOut':
+            # the documented structure of encoder parameters: options.params = {...} ('!params={"crf": 23, "g": 30}'); a loose
+            # '!g=30' is the same parameter, so nesting the loose ones per output must normalise to the same config
+            nested = []
+            for o in istr:
+                o = dict(o)
+                if isinstance(o.get('options'), dict):
+                    loose = {k: v for k, v in o['options'].items() if k not in ('bgr', 'fps', 'segtime', 'params')}
+                    if loose: o['options'] = {**{k: v for k, v in o['options'].items() if k not in loose}, 'params': loose}
+                nested.append(o)
+            if nested != istr: form(sources=sl, outputs=nested)
         if mal and rng.random() < 0.15: text.pop('sources')
     elif cls == 'Recorder':
         st, sl = gen_mq_sources(rng)
